@@ -401,4 +401,149 @@ theorem witness_only_matters_through_sighash_multisig (cr : Crypto) (hl : HashLe
     fuel' hfuel'
   exact ⟨r, r', hr, hr', by rw [he, he', hargs]⟩
 
+/-! ### a change of committed content invalidates the witness -/
+
+open BytomModel.Props.C03 in
+/-- the signature hash `H(inputID ‖ txID)` determines both ids, or a collision of `H` is at hand -/
+theorem sigHash_commits (H : Bytes → Bytes) (ida idb ta tb : Bytes) (hl : ida.length = idb.length)
+    (h : Entry.sigHash H ida ta = Entry.sigHash H idb tb) : (ida = idb ∧ ta = tb) ∨ Collision H := by
+  unfold Entry.sigHash at h
+  by_cases he : ida ++ ta = idb ++ tb
+  · exact Or.inl (List.append_inj he hl)
+  · exact Or.inr ⟨_, _, he, h⟩
+
+/-- P2WPKH: a witness accepted for one signature hash is rejected for every other one, if a
+    signature verifies for at most one message under a given key (assumption about Ed25519) -/
+theorem mutation_invalidates_p2wpkh (hash160 : Bytes → Bytes) (verify : Bytes → Bytes → Bytes → Bool)
+    (hone : ∀ pk m m' sg, verify pk m sg = true → verify pk m' sg = true → m = m')
+    (h sh sh' : Bytes) (args : List Bytes) (hne : sh ≠ sh')
+    (hacc : p2pkhSpec hash160 verify h sh args = none) : p2pkhSpec hash160 verify h sh' args ≠ none := by
+  intro hacc'
+  obtain ⟨extra, sg, pk, ha, _, _, hv⟩ := (p2pkhSpec_none_iff _ _ _ _ _).mp hacc
+  obtain ⟨extra', sg', pk', ha', _, _, hv'⟩ := (p2pkhSpec_none_iff _ _ _ _ _).mp hacc'
+  rw [ha] at ha'
+  have := List.append_inj' ha' rfl
+  obtain ⟨_, h2⟩ := this
+  simp only [List.cons.injEq, and_true] at h2
+  obtain ⟨rfl, rfl⟩ := h2
+  exact hne (hone _ _ _ _ hv hv')
+
+/-- multisig: the same, if a signature verifies for at most one message (under whatever key) -/
+theorem mutation_invalidates_multisig (verify : Bytes → Bytes → Bytes → Bool)
+    (hone : ∀ pk pk' m m' sg, verify pk m sg = true → verify pk' m' sg = true → m = m')
+    (keys : List Bytes) (m : Nat) (sh sh' : Bytes) (stack : List Bytes) (hk : ∀ k ∈ keys, k.length = 32)
+    (hsl : sh.length = 32) (hsl' : sh'.length = 32) (hn : keys.length < 2 ^ 50) (hm : m < two63) (hpos : 0 < m)
+    (hne : sh ≠ sh') (hacc : msOk verify keys m sh stack = true) : msOk verify keys m sh' stack = false := by
+  cases hacc' : msOk verify keys m sh' stack with
+  | false => rfl
+  | true =>
+    exfalso
+    obtain ⟨extra, sigs, hst, hlen, _, _, hemb⟩ := (msOk_iff verify keys m sh stack hk hsl hn hm).mp hacc
+    obtain ⟨extra', sigs', hst', hlen', _, _, hemb'⟩ := (msOk_iff verify keys m sh' stack hk hsl' hn hm).mp hacc'
+    rw [hst] at hst'
+    have hs : sigs.reverse = sigs'.reverse := (List.append_inj hst' (by simp [hlen, hlen'])).1
+    have hs' : sigs = sigs' := by simpa using congrArg List.reverse hs
+    subst hs'
+    obtain ⟨ks, _, hf⟩ := hemb
+    obtain ⟨ks', _, hf'⟩ := hemb'
+    cases hf with
+    | nil => simp at hlen; omega
+    | cons hv _ =>
+      cases hf' with
+      | cons hv' _ => exact hne (hone _ _ _ _ _ hv hv')
+
+open BytomModel.Codec hiding Bytes in
+open BytomModel.Entry BytomModel.Lemmas.Codec BytomModel.Lemmas.Entry BytomModel.Props.C03 in
+/-- **mutation invalidates (P2WPKH)**: let a spend of a P2WPKH output be accepted in transaction
+    `a` (input id `ida`). In any transaction `b` whose committed content differs (version, time
+    range, some output's committed view, or — when there is an output — some input's commitment),
+    or whose input is another one, the SAME witness is rejected — or a collision of the hash
+    function `H` has been found (reduction to C03 `txid_injective`) -/
+theorem mutation_invalidates (H : Bytes → Bytes) (h32 : Hash32 H) (a b : TxData) (wa : WFTxV a) (wb : WFTxV b)
+    (ma mb : MappedTx) (ha : mapTx H a = some ma) (hb : mapTx H b = some mb) (ida idb : Bytes)
+    (hl : ida.length = idb.length)
+    (hdiff : ida ≠ idb ∨ ¬ (a.version = b.version ∧ a.timeRange = b.timeRange ∧
+      a.outputs.map outView = b.outputs.map outView ∧
+      (a.outputs ≠ [] → ∃ ta tb, typedInputs a.inputs = some ta ∧ typedInputs b.inputs = some tb ∧
+        ta.map stripTyped = tb.map stripTyped)))
+    (hash160 : Bytes → Bytes) (verify : Bytes → Bytes → Bytes → Bool)
+    (hone : ∀ pk m m' sg, verify pk m sg = true → verify pk m' sg = true → m = m')
+    (h : Bytes) (args : List Bytes)
+    (hacc : p2pkhSpec hash160 verify h (Entry.sigHash H ida ma.id) args = none) :
+    p2pkhSpec hash160 verify h (Entry.sigHash H idb mb.id) args ≠ none ∨ Collision H := by
+  by_cases heq : Entry.sigHash H ida ma.id = Entry.sigHash H idb mb.id
+  · rcases sigHash_commits H ida idb ma.id mb.id hl heq with ⟨hi, ht⟩ | hc
+    · rcases txid_injective H h32 a b wa wb ma mb ha hb ht with hsame | hc
+      · rcases hdiff with hd | hd
+        · exact absurd hi hd
+        · exact absurd hsame hd
+      · exact Or.inr hc
+    · exact Or.inr hc
+  · exact Or.inl (mutation_invalidates_p2wpkh hash160 verify hone h _ _ args heq hacc)
+
+open BytomModel.Codec hiding Bytes in
+open BytomModel.Entry BytomModel.Lemmas.Codec BytomModel.Lemmas.Entry BytomModel.Props.C03 in
+/-- **mutation invalidates (multisig)** -/
+theorem mutation_invalidates_multisig_tx (H : Bytes → Bytes) (h32 : Hash32 H) (a b : TxData) (wa : WFTxV a) (wb : WFTxV b)
+    (ma mb : MappedTx) (ha : mapTx H a = some ma) (hb : mapTx H b = some mb) (ida idb : Bytes)
+    (hl : ida.length = idb.length)
+    (hdiff : ida ≠ idb ∨ ¬ (a.version = b.version ∧ a.timeRange = b.timeRange ∧
+      a.outputs.map outView = b.outputs.map outView ∧
+      (a.outputs ≠ [] → ∃ ta tb, typedInputs a.inputs = some ta ∧ typedInputs b.inputs = some tb ∧
+        ta.map stripTyped = tb.map stripTyped)))
+    (verify : Bytes → Bytes → Bytes → Bool)
+    (hone : ∀ pk pk' m m' sg, verify pk m sg = true → verify pk' m' sg = true → m = m')
+    (keys : List Bytes) (m : Nat) (stack : List Bytes) (hk : ∀ k ∈ keys, k.length = 32) (hn : keys.length < 2 ^ 50)
+    (hm : m < two63) (hpos : 0 < m)
+    (hacc : msOk verify keys m (Entry.sigHash H ida ma.id) stack = true) :
+    msOk verify keys m (Entry.sigHash H idb mb.id) stack = false ∨ Collision H := by
+  by_cases heq : Entry.sigHash H ida ma.id = Entry.sigHash H idb mb.id
+  · rcases sigHash_commits H ida idb ma.id mb.id hl heq with ⟨hi, ht⟩ | hc
+    · rcases txid_injective H h32 a b wa wb ma mb ha hb ht with hsame | hc
+      · rcases hdiff with hd | hd
+        · exact absurd hi hd
+        · exact absurd hsame hd
+      · exact Or.inr hc
+    · exact Or.inr hc
+  · exact Or.inl (mutation_invalidates_multisig verify hone keys m _ _ stack hk (h32 _) (h32 _) hn hm hpos heq hacc)
+
+/-! ### the hypotheses are satisfiable on non-trivial values (tests, not proofs of anything) -/
+
+/-- a toy instantiation of the cryptography: digests of the right length, a "signature" is the
+    message itself -/
+def toy : Crypto where
+  verify := fun _ msg sg => sg == msg
+  sha256 := fun x => (x ++ List.replicate 32 0).take 32
+  sha3 := fun x => (x ++ List.replicate 32 0).take 32
+  ripemd160 := fun x => (x ++ List.replicate 20 0).take 20
+
+example : HashLens toy := ⟨fun x => by simp [toy], fun x => by simp [toy]⟩
+
+/-- the single-message hypotheses hold for the toy verifier and it accepts something -/
+example : (∀ pk pk' m m' sg, toy.verify pk m sg = true → toy.verify pk' m' sg = true → m = m') ∧
+    toy.verify [1] [2] [2] = true := by
+  refine ⟨?_, by decide⟩
+  intro pk pk' m m' sg h1 h2
+  simp only [toy, beq_iff_eq] at h1 h2
+  rw [← h1, ← h2]
+
+def toyPk : Bytes := List.replicate 32 7
+def toyMsg : Bytes := List.replicate 32 9
+def toySpend : SpendInfo :=
+  { vmVersion := 1, code := p2pkhCode (toy.ripemd160 toyPk), stateData := [], args := [toyMsg, toyPk],
+    entryID := [], assetID := [], amount := 5, destPos := 0, spentOutputID := [] }
+
+/-- `p2wpkh_spend_iff` applies to a concrete spend and says: accepted -/
+example : ∃ r, verifySpend toy none 8 1 100 toyMsg toySpend 5000 = some r ∧ r.err = none := by
+  obtain ⟨r, hr, hiff⟩ := p2wpkh_spend_iff toy ⟨fun x => by simp [toy], fun x => by simp [toy]⟩ none 1 100
+    (toy.ripemd160 toyPk) toyMsg (by simp [toy]) (by simp [toyMsg]) toySpend rfl rfl 5000 (by decide) 8 (by omega)
+  exact ⟨r, hr, hiff.mpr ⟨[], toyMsg, toyPk, rfl, rfl, by simp [toyPk], by decide⟩⟩
+
+/-- the same spend evaluated by the kernel on the VM model itself (a test of the model on one value) -/
+example : (verifySpend toy none 8 1 100 toyMsg toySpend 5000).map (fun r => r.err) = some none := by decide +kernel
+
+/-- the signatures of a 2-of-3 embed in order; in the wrong order they do not -/
+example : Embeds (fun p s => s == p) [[1], [3]] [[1], [2], [3]] := ⟨[[1], [3]], by decide, by repeat constructor⟩
+example : matchSigs (fun p s => s == p) [[3], [1]] [[1], [2], [3]] = false := by decide
+
 end BytomModel.Props.C02
